@@ -66,12 +66,15 @@ func Patterns(quick bool) []string {
 	all = append(all, atomsFull...)
 	all = append(all, level1(atomsFull)...)
 	if quick {
-		all = append(all, level2([]string{`a`, `é`, `.`, `\b`})...)
-	} else {
 		all = append(all, level2(atomsSmall)...)
-		// a slice of 3-operator trees: unary over level2 of a tiny atom set
-		for _, x := range level2([]string{`a`, `.`, `\b`}) {
+	} else {
+		all = append(all, level2(append(append([]string{}, atomsSmall...), `$`, `^`, `(?i:a)`, `[ab]`))...)
+		// 3-operator trees: unary over, and binary with, level2 of a small atom set
+		l2 := level2([]string{`a`, `.`, `\b`, `é`})
+		for _, x := range l2 {
 			all = append(all, unary(x)...)
+			all = append(all, binary(x, `a`)...)
+			all = append(all, binary(`.`, x)...)
 		}
 	}
 	seen := map[string]bool{}
